@@ -43,6 +43,7 @@ type Lemma struct {
 	From     SExpr
 	Uses     []string
 	Axiom    bool // assumed without proof (listed in trusted base)
+	Triggers [][]SExpr
 	Props    []string
 	Pkg      string
 	Src      string
@@ -65,6 +66,9 @@ type FuncContract struct {
 	NoPanic     bool
 	NoLocks     bool // called (and entered) with no lock of the tracked mutexes held by this goroutine
 	NoOverflow  bool
+	DeadRets    map[int]bool // return sites declared unreachable under the precondition
+	StagedInv   bool // each loop invariant may use the ones listed before it (at entry and at every back edge)
+	Staged      bool // each postcondition may use the ones listed before it (proved at the same return site)
 	Writes      []Clause // with writesonly: the locations single stores may go to (default: the modifies clause)
 	HasWrites   bool
 	WritesOnly  bool // every store (not only the net effect at return) stays inside the modifies clause
@@ -108,7 +112,7 @@ func NewContractDB() *ContractDB {
 }
 
 var topKW = map[string]bool{"spec": true, "pred": true, "def": true, "lemma": true, "axiom": true, "func": true, "assumed": true, "interface": true, "region": true, "guarded": true, "props": true, "purepkg": true, "table": true}
-var clauseKW = map[string]bool{"requires": true, "ensures": true, "modifies": true, "nopanic": true, "nooverflow": true, "inline": true, "loop": true, "use": true, "mode": true, "by": true, "prop": true, "pure": true, "ghost": true, "nolocks": true, "writes": true, "writesonly": true}
+var clauseKW = map[string]bool{"requires": true, "ensures": true, "modifies": true, "nopanic": true, "nooverflow": true, "inline": true, "loop": true, "use": true, "mode": true, "by": true, "prop": true, "pure": true, "ghost": true, "nolocks": true, "writes": true, "writesonly": true, "trigger": true, "staged": true, "stagedinv": true, "unreachable": true}
 
 type rawItem struct {
 	kw      string
@@ -311,6 +315,18 @@ func (db *ContractDB) LoadContracts(path, pkgPath string) error {
 					lm.Uses = append(lm.Uses, strings.Fields(c.text)...)
 				case "prop":
 					lm.Props = strings.Fields(c.text)
+				case "trigger":
+					// trigger e1, e2: instantiation pattern used when the lemma is handed to a
+					// solver as a quantified fact (several trigger clauses = alternative patterns)
+					var trig []SExpr
+					for _, part := range splitTop(c.text) {
+						e, err := parseSpec(part)
+						if err != nil {
+							return fmt.Errorf("%s: %v", where, err)
+						}
+						trig = append(trig, e)
+					}
+					lm.Triggers = append(lm.Triggers, trig)
 				default:
 					return fmt.Errorf("%s: clause %q not allowed in lemma", where, c.kw)
 				}
@@ -370,6 +386,25 @@ func (db *ContractDB) LoadContracts(path, pkgPath string) error {
 					fc.Pure = true
 				case "nolocks":
 					fc.NoLocks = true
+				case "staged":
+					fc.Staged = true
+				case "stagedinv":
+					fc.StagedInv = true
+				case "unreachable":
+					// unreachable ret <k> [...]: return site k cannot be reached under the precondition
+					// (dead code); every other return site must be reachable (vacuity canary)
+					fs := strings.Fields(c.text)
+					if len(fs) < 2 || fs[0] != "ret" {
+						return fmt.Errorf("%s: expected 'unreachable ret <k>'", where)
+					}
+					var k int
+					if _, err := fmt.Sscanf(fs[1], "%d", &k); err != nil {
+						return fmt.Errorf("%s: bad return ordinal %q", where, fs[1])
+					}
+					if fc.DeadRets == nil {
+						fc.DeadRets = map[int]bool{}
+					}
+					fc.DeadRets[k] = true
 				case "nopanic":
 					fc.NoPanic = true
 				case "nooverflow":
